@@ -72,7 +72,7 @@ TRAILS = [0x5a, 0x5b, 0x5d, 0x2a, 0x20, 0x28, 0x29, 0x2c, 0x00, 0x30, 0x7a, 0x5f
 def generate(ctx):
     rng = ctx.rng
     cases = []
-    for i in range(ctx.n(150, 4000)):
+    for i in range(ctx.n(150, 900)):
         raw = rng.random() < 0.5
         table = gen_table(rng, raw)
         unsorted = rng.random() < 0.15
@@ -82,7 +82,7 @@ def generate(ctx):
                           keys=["%s %02x" % (k.hex(), rng.choice(TRAILS))
                                 for k in keys_for(rng, [bytes(t) for t in table], raw)],
                           sorted=not unsorted))
-    for i in range(ctx.n(6, 60)):
+    for i in range(ctx.n(6, 30)):
         table = [t for t in gen_table(rng, False) if t]
         cases.append(dict(kind="module", mode="abi", names=[t.decode() for t in table]))
     if ctx.thorough:
